@@ -35,7 +35,8 @@ ASSUMPTIONS = [
 PROBES = ["ran_to_completion", "forced_cleanup_deleted_preexisting", "refused_without_force", "workspace_inside_input", "input_inside_workspace",
           "identical_paths", "via_symlink", "default_name_coincidence", "symlink_in_input", "file_input", "multi_input",
           "fault_crash", "fault_eio_copy", "fault_enospc_write", "fault_eacces_mkdir", "second_run_on_residue", "copied_files",
-          "relative_workspace", "default_workspace", "input_via_symlinked_ancestor", "cwd_contains_default_name"]
+          "relative_workspace", "default_workspace", "input_via_symlinked_ancestor", "cwd_contains_default_name",
+          "c_language", "c_header_preprocess", "second_run_other_project", "second_run_incremental", "spawned_subprocess"]
 # the same check again, smaller, in interpreters started with assertions stripped (python -O / PYTHONOPTIMIZE=1)
 ENV_VARIANTS = [{"name": "python-O", "env": {"PYTHONOPTIMIZE": "1"}, "runs": {'quick': 250, 'thorough': 2500}}]
 TIERS = {
@@ -65,6 +66,10 @@ def setup_worker():
 PY = ["import os\nx = 1\n", "def f(a, b=2):\n    return a + b\nr = f(1)\n", "class A:\n    def m(self, p):\n        self.q = p\n        return p\n",
       "from pkg import util\nv = util.g(3)\n", "y = [1, 2, 3]\nfor i in y:\n    print(i)\n"]
 JS = ["function f(a) { return a + 1; }\nvar r = f(2);\n", "const o = {a: 1};\no.b = o.a;\n"]
+CSRC = ['#include <stdio.h>\n#include "util.h"\nint add(int a, int b) {\n    return a + b;\n}\n',
+        '#include "generated/config.h"\nint conf(void) {\n    return CONFIG_VALUE;\n}\n',
+        'int twice(int x) {\n    int y = x * 2;\n    return y;\n}\n',
+        '#include <stdlib.h>\nstatic int g;\nvoid set(int v) {\n    g = v;\n}\n']
 OTHER = {"README.md": "# readme\n", "data.json": "{}\n", "notes.txt": "keep me\n", "Makefile": "all:\n"}
 
 
@@ -76,7 +81,9 @@ def gen_knobs(rng, tier):
         "wform": rng.choice(["omitted", "relative", "absolute", "custom_contains_default", "absolute"]),
         "force": rng.random() < 0.8,
         "sub": rng.choice(["lang", "lang", "lang", "run", "semantic"]),
-        "lang": rng.choice(["python", "python", "python,javascript"]),
+        "lang": rng.choice(["python", "python", "python,javascript", "c", "c"]),
+        "c_preprocess": rng.random() < 0.7,
+        "second": rng.choice(["same_forced", "same_forced", "other_project_forced", "other_project_incremental", "other_project_incremental"]),
         "n_inputs": rng.choice([1, 1, 2, 3]),
         "tree_files": rng.randint(1, 8),
         "symlinks": rng.random() < 0.4,
@@ -98,6 +105,11 @@ def _tree(rng, k, base, ops):
     for i in range(k["tree_files"]):
         d = rng.choice(dirs)
         r = rng.random()
+        if k["lang"] == "c" and r < 0.75:
+            name = f"m{i}.c" if r < 0.55 else (f"m{i % 2}_processed.c" if r < 0.65 else "util.h")
+            ops.append({"op": "mkfile", "path": os.path.join(d, name),
+                        "content": rng.choice(CSRC) if name.endswith(".c") else "int add(int a, int b);\n"})
+            continue
         if r < 0.6:
             ops.append({"op": "mkfile", "path": os.path.join(d, f"m{i}.py"), "content": rng.choice(PY)})
         elif r < 0.75:
@@ -181,7 +193,7 @@ def generate(rng, k):
     if k["cwd_in_input"] and inputs and not inputs[0].endswith(".py"):
         cwd = inputs[0]
     run = {"op": "run", "sub": k["sub"], "lang": k["lang"], "force": k["force"], "cwd": cwd,
-           "flags": (["--nomock"] if k["nomock"] else [])}
+           "flags": (["--nomock"] if k["nomock"] else []) + (["-I"] if k["lang"] == "c" and k.get("c_preprocess") else [])}
     if wform == "omitted":
         # default name relative to cwd: the workspace is <cwd>/lian_workspace
         run["w"] = None
@@ -218,12 +230,27 @@ def generate(rng, k):
         else:
             run["faults"] = [{"kind": fk, "k": rng.choice([1, 1, 2, 3, 5])}]
     ops.append(run)
-    if k["population"] == "faulted" and rng.random() < 0.8:
+    want_second = (k["population"] == "faulted" and rng.random() < 0.8) or (k["population"] != "faulted" and rng.random() < 0.3)
+    if want_second:
         second = dict(run)
         second.pop("faults", None)
         second["force"] = True
         if rng.random() < 0.3:
             second["sub"] = "lang"
+        kind2 = k.get("second", "same_forced")
+        if kind2 != "same_forced":
+            # ANOTHER project with the same directory and file names but other contents goes into the same workspace
+            extra = []
+            for op in ops:
+                if op["op"] == "mkfile" and any(op["path"] == i_["path"].replace("lnkroot/", "") or
+                                                op["path"].startswith(i_["path"].replace("lnkroot/", "") + "/") for i_ in run["inputs"]):
+                    extra.append({"op": "mkfile", "path": "alt/" + op["path"], "content": op["content"] + "\n/* second project */\n"
+                                  if op["path"].endswith((".c", ".h", ".js")) else op["content"] + "\n# second project\n"})
+            ops[-1:-1] = extra
+            second["inputs"] = [dict(i_, path="alt/" + i_["path"].replace("lnkroot/", "")) for i_ in run["inputs"]]
+            if kind2 == "other_project_incremental":
+                second["force"] = False
+                second["flags"] = list(second.get("flags", [])) + ["--incremental"]
         ops.append(second)
     return ops
 
@@ -336,6 +363,14 @@ def execute(trace):
                 hit("symlink_in_input")
             if n_run == 2:
                 hit("second_run_on_residue")
+                if any("alt/" in i_["path"] for i_ in op["inputs"]):
+                    hit("second_run_other_project")
+                if "--incremental" in op.get("flags", []):
+                    hit("second_run_incremental")
+            if op["lang"] == "c":
+                hit("c_language")
+                if "-I" in op.get("flags", []):
+                    hit("c_header_preprocess")
 
             exts = _exts(op["lang"])
             eligible = elig_bytes = n_dirs = 0
@@ -347,11 +382,16 @@ def execute(trace):
                 if v_[0] == "f" and os.path.splitext(p_)[1].lower() in exts:
                     eligible += 1
                     elig_bytes += v_[1]
+            # directories between an input root and a workspace inside it are created by the run itself and mirrored by the copy
+            ws_depth = max([len(os.path.relpath(W, ir).split(os.sep)) for ir in input_real if fsseam._inside(W, ir)] or [0])
             report_path = os.path.join(B, f"report{n_run}.json")
             stdio_path = os.path.join(B, f"stdio{n_run}.txt")
             plan = [dict(f) for f in op.get("faults", [])] if k["population"] == "faulted" else []
 
-            def before_run(M, _W=W, _plan=plan, _before=before, _force=op["force"], _rp=report_path):
+            # --incremental re-uses (rewrites, backs up) the previous contents of the workspace: inside W it has the same licence as -f
+            inside_ok = bool(op["force"] or "--incremental" in op.get("flags", []))
+
+            def before_run(M, _W=W, _plan=plan, _before=before, _force=inside_ok, _rp=report_path):
                 def on_die(seam):
                     with open(_rp + ".tmp", "w") as f:
                         json.dump({"status": "crashed", "detail": "", "report": _report(seam)}, f)
@@ -359,7 +399,7 @@ def execute(trace):
                 seam = fsseam.Seam({"R": R, "W": _W, "allow": [home, tmpd], "force": _force, "preexisting": set(_before),
                                     "faults": _plan, "on_die": on_die, "max_events": 2500,
                                     "input_roots": list(input_real), "max_input_copies": eligible,
-                                    "src_root": os.path.join(_W, "src"), "max_src_dirs": n_dirs + len(input_real) + 1})
+                                    "src_root": os.path.join(_W, "src"), "max_src_dirs": n_dirs + len(input_real) + 1 + ws_depth})
                 seam.install()
                 return lambda: _report(seam)
 
@@ -378,6 +418,8 @@ def execute(trace):
                 hit("ran_to_completion")
             if rep.get("counts", {}).get("shutil.copyfile"):
                 hit("copied_files")
+            if rep.get("counts", {}).get("spawn"):
+                hit("spawned_subprocess")
             stdio = ""
             try:
                 stdio = open(stdio_path, errors="replace").read()[-1500:]
@@ -393,6 +435,12 @@ def execute(trace):
                                                                       "count": len(vs), "status": status, "W": W.replace(R, "<R>")}}
             if status in ("timeout",) and not violation:
                 violation = {"step": step, "cls": "I4:run_did_not_finish", "detail": {"run": n_run, "argv": _mask_argv(argv, R), "status": status}}
+            # ---- I1 (leftovers): scratch files in the process's TMPDIR are tolerated while it runs, not afterwards
+            if not violation and status != "crashed":
+                left = sorted(os.listdir(tmpd))
+                if left:
+                    violation = {"step": step, "cls": "I1:file_left_outside_workspace", "detail": {
+                        "run": n_run, "argv": _mask_argv(argv, R), "status": status, "where": "$TMPDIR", "names": [n_[:40] for n_ in left[:5]], "count": len(left)}}
             # ---- I3: everything outside W (and every input file, wherever it is) is byte-identical afterwards; nothing new outside W
             if not violation:
                 changed, created, deleted = [], [], []
@@ -425,9 +473,12 @@ def execute(trace):
             if not violation:
                 src_root = os.path.join(W, "src")
                 copies = [s for s in rep.get("copy_srcs", []) if any(fsseam._inside(s, ir) or s == ir for ir in input_real)]
-                bytes_under_src = sum(v[1] for p, v in after.items() if v[0] == "f" and fsseam._inside(p, src_root))
-                dirs_under_src = sum(1 for p, v in after.items() if v[0] == "d" and fsseam._inside(p, src_root))
-                if len(copies) > eligible or bytes_under_src > elig_bytes or dirs_under_src > n_dirs + len(input_real) + 1:
+                # only what THIS run put there counts (a refused or failed run leaves the residue of an earlier one in place)
+                bytes_under_src = sum(v[1] for p, v in after.items() if v[0] == "f" and fsseam._inside(p, src_root) and before.get(p) != v)
+                dirs_under_src = sum(1 for p, v in after.items() if v[0] == "d" and fsseam._inside(p, src_root) and p not in before)
+                # header preprocessing (-I) legitimately writes _processed / .i files next to the copies: no byte bound then
+                bytes_bound = elig_bytes if "-I" not in op.get("flags", []) else 10 ** 12
+                if len(copies) > eligible or bytes_under_src > bytes_bound or dirs_under_src > n_dirs + len(input_real) + 1 + ws_depth:
                     violation = {"step": step, "cls": "I4:unbounded_copy", "detail": {
                         "run": n_run, "argv": _mask_argv(argv, R), "status": status, "detail": out.get("detail", "").replace(R, "<R>"), "W": W.replace(R, "<R>"),
                         "copies_from_inputs": len(copies), "eligible_input_files": eligible,
@@ -472,19 +523,23 @@ def _mask_argv(argv, R):
 def _exts(lang):
     out = set()
     for l in lang.split(","):
-        out |= {"python": {".py"}, "javascript": {".js"}}.get(l.strip(), set())
+        out |= {"python": {".py"}, "javascript": {".js"}, "c": {".c", ".h", ".i"}}.get(l.strip(), set())
     return out
 
 
 # ----------------------------------------------------------------------------- signature / simplification
 
 def signature(trace, violation):
-    run = next((op for op in trace["ops"] if op["op"] == "run"), {})
-    w = run.get("w")
-    wform = "omitted" if w is None else w.get("form")
+    """invariant | placement | -f | --incremental | pre-existing symlink inside the workspace | fault kinds  (of the minimised trace)"""
+    runs = [op for op in trace["ops"] if op["op"] == "run"]
     d = violation.get("detail", {})
-    fk = "+".join(f["kind"] for op in trace["ops"] if op["op"] == "run" for f in op.get("faults", []))
-    return f"{violation['cls']}|place={trace['knobs']['placement']}|w={wform}|force={run.get('force')}|run={d.get('run')}|faults={fk}"
+    n = d.get("run") or 1
+    run = runs[min(n, len(runs)) - 1] if runs else {}
+    fk = "+".join(f["kind"] for op in runs for f in op.get("faults", []))
+    inc = "--incremental" in run.get("flags", [])
+    ws_link = any(op["op"] == "symlink" and "/lian_workspace/" in op["path"] + "/" for op in trace["ops"])
+    return (f"{violation['cls']}|place={trace['knobs']['placement']}|force={run.get('force')}|incremental={inc}"
+            f"|symlink_in_workspace={ws_link}|faults={fk}")
 
 
 def simplify(trace):
